@@ -135,6 +135,11 @@ func (x *runner) enc(arg string) string {
 	switch {
 	case p != "":
 		x.r.Count("enc:panic")
+		if strings.Contains(p, "interface conversion") {
+			// (defect of the unchanged tree until the fix in mapEncodeMapKVPair: the unchecked `k.(string)` panicked for a map key
+			// whose map form is a JSON number / bool / object - such a map is not expressible, but that is an error, not a panic)
+			x.r.Fail("encode-panic", fmt.Sprintf("JSONEncode panics: %s; schema %s value %s", p, top, v), map[string]string{"oracle": "encode-panic", "trigger": "map-key-not-a-string"})
+		}
 		if top.hasMap() { // which entry of a Go map fails first depends on the iteration order
 			return "fail" + vx
 		}
